@@ -131,3 +131,22 @@ def space_packet_pack(ptype: EnumOf(PacketType), shf: Bool, apid: IntRange(0, 20
         if user is not None:
             expect = expect + user
         ensures("layout", o.value == expect)
+
+
+@obligation(["C01"], "helpers/refusal", verifies=[M + "get_sp_psc_raw", M + "get_sp_packet_id_raw", M + "get_space_packet_id_bytes"])
+def helper_refusals(ptype: EnumOf(PacketType), shf: Bool, flags: EnumOf(SequenceFlags), apid: Int, count: Int):
+    """the module-level encoders refuse out-of-range APIDs / sequence counts exactly like the classes (all integers), and encode
+    in-range values to the same words"""
+    o = outcome(get_sp_psc_raw, flags, count)
+    ensures("psc-valueerror-iff", o.raised(ValueError) == either(count < 0, count > 16383))
+    ensures("psc-raises-only", o.ok or o.raised(ValueError))
+    if o.ok:
+        ensures("psc-word", o.value == flags * 16384 + count)
+    o2 = outcome(get_sp_packet_id_raw, ptype, shf, apid)
+    ensures("id-valueerror-iff", o2.raised(ValueError) == either(apid < 0, apid > 2047))
+    ensures("id-raises-only", o2.ok or o2.raised(ValueError))
+    if o2.ok:
+        ensures("id-word", o2.value == ptype * 4096 + shf * 2048 + apid)
+    o3 = outcome(get_space_packet_id_bytes, ptype, shf, apid)
+    if o3.ok and 0 <= apid and apid <= 2047:
+        ensures("id-bytes-word", o3.value[0] * 256 + o3.value[1] == ptype * 4096 + shf * 2048 + apid)
